@@ -286,6 +286,9 @@ func runC09(args []string) error {
 		return err
 	}
 	sum.CasesFiles = append(names, znames...)
+	if err := runC09Layers(sum); err != nil {
+		return err
+	}
 	if err := runC09Lazy(sum); err != nil {
 		return err
 	}
